@@ -1533,7 +1533,8 @@ static int dd_unqualified_name(struct demangle_data *dd)
 				return 0;
 
 			dd_append_separator(dd, "::");
-			snprintf(buf, sizeof(buf), "$_%d", n + 1);
+			/* n can be INT_MAX: count in unsigned, no signed overflow */
+			snprintf(buf, sizeof(buf), "$_%u", (unsigned)n + 1);
 			dd_append(dd, buf);
 		}
 		else {
